@@ -227,6 +227,18 @@ class Snap(object):
             return True, ''
         c = st.dom(length).const()
         if c is None:
+            # explicit stores up to a constant offset c0, then a block copy of n bytes at c0 (the payload), length <= c0 + n:
+            # every byte below the length is determined although the buffer as a whole was never zero-filled
+            regs = [r for r in (d.get('regions') or ()) if isinstance(r, tuple) and len(r) >= 3 and isinstance(r[0], tuple) and not r[0][0]
+                    and isinstance(r[2], tuple) and r[2] and r[2][0] == 'memcpy']
+            for key, n_, _src in regs:
+                c0 = key[1]
+                if not isinstance(c0, int) or c0 < 0 or c0 > 4096:
+                    continue
+                if any(self.byte(i) == ('uninit',) for i in range(c0)):
+                    continue
+                if st.prove_le(length, ('add', C(c0), n_)):
+                    return True, ''
             return False, 'buffer is not zero-filled and the frame length %s is not constant' % short(length)
         for i in range(int(c)):
             if self.byte(i) == ('uninit',):
